@@ -38,6 +38,7 @@ pub enum K {
     Echo, // macro: a replica that holds another's packs (but not its blocks) commits the same content, then a third learns its blocks only
     StageSave,
     StageRestore,
+    FailRedo, // macro: a commit fails at a chosen write; the user discards (or exports and replays) the stage, redoes the same edit, commits, restarts
     TravelRedo, // macro: a pack-less commit, time travel to its parents, the identical change committed again
     Rounds, // macro: several rounds of "everyone edits and commits, then everyone exchanges with everyone" (blocks with 3+ parents)
     Burst, // macro: a long run of successive small edits of the same objects (revision indices >= 10, >= 100)
@@ -193,6 +194,7 @@ pub fn profile_for(prop: &str, variant: u64) -> Profile {
             // *after* them (unstage, other edits, partial delivery to peers) is part of the property
             w[K::Trickle as usize] = 10;
             w[K::Echo as usize] = 12;
+            w[K::FailRedo as usize] = 12;
             w[K::Unstage as usize] = 6;
             w[K::RoundTrip as usize] = 3;
             w[K::FailWrites as usize] = 8;
@@ -268,7 +270,9 @@ pub fn profile_for(prop: &str, variant: u64) -> Profile {
         }
         "C16" => {
             p.name = "array-chains";
-            p.replicas = (1, 2);
+            // a follower that catches up several versions at once walks chains from a cold cache
+            p.replicas = if variant % 3 == 0 { (1, 2) } else { (2, 3) };
+            w[K::Exchange as usize] = 18;
             w[K::Burst as usize] = 4;
             w[K::Update as usize] = 40;
             w[K::EditCommit as usize] = 20;
@@ -351,7 +355,7 @@ pub fn make_cfg(prop: &str, run_seed: u64) -> (RunCfg, Gen) {
         hash_seed: rng.next(),
         order_seed: rng.next(),
         list_seed: rng.next(),
-        cache_ad: if prof.small_caches { *rng.pick(&caps) } else { 16 },
+        cache_ad: if prof.small_caches { if cfg!(feature = "sched") && prop == "C16" { *rng.pick(&[1u32, 1, 2, 2, 3]) } else { *rng.pick(&caps) } } else { 16 },
         cache_data: if prof.small_caches { *rng.pick(&caps) } else { 16 },
         pool: rng.range(1, 16),
         doc,
@@ -575,7 +579,7 @@ impl Gen {
             x if x == K::RoundTrip as usize => vec![Op::StageRoundTrip { r }],
             x if x == K::Snapshot as usize => vec![Op::Snapshot { r }],
             x if x == K::ObjOp as usize => {
-                let kind = self.rng.below(3) as u8;
+                let kind = self.rng.below(4) as u8;
                 let mut f = serde_json::Map::new();
                 if w.cfg.prop == "C19" && self.rng.chance(1, 4) {
                     // a character-code object: its digest is the code itself (upper and lower case hex)
@@ -741,6 +745,47 @@ impl Gen {
                             v.push(Op::ReloadUntil { r, sel: self.rng.next() as u32 });
                         }
                         v.push(Op::Reload { r });
+                    }
+                    v
+                }
+            }
+            x if x == K::FailRedo as usize => {
+                if w.replicas[r].time_travel {
+                    vec![Op::Reload { r }]
+                } else {
+                    let mut v = vec![];
+                    if self.staging(w, r) {
+                        v.push(Op::Commit { r, info: None });
+                    }
+                    let doc = self.next_doc(w, r);
+                    let info = commit_info(&mut self.rng, &cfg);
+                    v.push(Op::Update { r, doc: doc.clone(), twice: false });
+                    v.push(Op::FailWrites { r, nth: self.rng.range(1, 2) as u32, repeat: 1 });
+                    v.push(Op::Commit { r, info: info.clone() });
+                    match self.rng.below(3) {
+                        0 => {
+                            // the user gives up, later makes the same edit again
+                            v.push(Op::Unstage { r });
+                            v.push(Op::Update { r, doc, twice: false });
+                        }
+                        1 => {
+                            // the stage is exported, discarded and replayed
+                            v.push(Op::StageSave { r, keep: false });
+                            v.push(Op::StageRestore { r });
+                        }
+                        _ => {
+                            // exported and discarded, something else happens in between, then replayed
+                            v.push(Op::StageSave { r, keep: false });
+                            v.push(Op::Refresh { r });
+                            v.push(Op::StageRestore { r });
+                        }
+                    }
+                    v.push(Op::Commit { r, info });
+                    if self.rng.chance(2, 3) {
+                        v.push(Op::Restart { r });
+                    } else if n > 1 {
+                        v.push(Op::Meld { r: other, from: r });
+                        v.push(Op::Refresh { r: other });
                     }
                     v
                 }
